@@ -79,6 +79,10 @@ type Config struct {
 	StepCap    int       `json:"step_cap"`
 	HardCap    int       `json:"hard_cap,omitempty"`       // steps after which an uncancellable run is given up (default step_cap+4000)
 	Background bool      `json:"background_ctx,omitempty"` // call Mine with context.Background()
+	// NeverDone (with Background): which never-cancellable context: "" = context.Background() itself, "todo",
+	// "value" (WithValue of Background), "withoutcancel" (WithoutCancel of a cancellable parent that IS cancelled during
+	// the run), "own" (the caller's own type with a nil Done channel)
+	NeverDone  string    `json:"never_done,omitempty"`
 	ForeignCtx bool      `json:"foreign_ctx,omitempty"`    // the context is the caller's own implementation of context.Context, not one from package context
 	PassOver   bool      `json:"pass_over,omitempty"`      // judge the pass-over clause (single worker)
 	Crowd      int       `json:"crowd,omitempty"`          // > 1: that many concurrent Mine calls (auto flavour only)
@@ -89,6 +93,13 @@ type Config struct {
 	// BigData > 0: the payload has that many bytes (the bytes of DataHex repeated, then a running counter): payloads of
 	// megabytes are legal, and hashing them takes long enough for an implementation to treat them differently.
 	BigData int `json:"big_data,omitempty"`
+	// Before, if set, is a Mine call made in the same process (same Worker object if the worker counts agree) just
+	// before the judged one: a short call that certainly finds, chosen so that the two calls agree in part of what
+	// determines the required work (same target and a message length that differs by a multiple of 2^16 or 2^8, same
+	// target and any other length, same length and a target 27 times smaller). State a change keeps between calls under
+	// a key that is only part of (target, length) is then wrong for the judged call — always in the unsound direction,
+	// because the judged call is the one that needs more zeros.
+	Before *Config `json:"before,omitempty"`
 
 	dataCache []byte
 }
@@ -523,6 +534,7 @@ func GenC13(seed uint64, tier string) *Config {
 	c.Fault = genFault(r, true)
 	if c.Fault.Kind == "none" && c.MustFind && r.IntN(2) == 0 {
 		c.Background = true
+		c.NeverDone = pick(r, "", "", "todo", "value", "withoutcancel", "own")
 	}
 	if !c.Background && (c.Fault.Kind == "none" || c.Fault.Kind == "pre" || c.Fault.Kind == "cancel") && r.IntN(5) == 0 {
 		c.ForeignCtx = true
@@ -546,6 +558,9 @@ func GenC11(seed uint64, tier string) *Config {
 	c.StepCap = 150 + r.IntN(600)
 	c.Fault = FaultPlan{Kind: "none"}
 	c.Background = r.IntN(2) == 0
+	if c.Background {
+		c.NeverDone = pick(r, "", "", "", "todo", "value", "withoutcancel", "own")
+	}
 	stubMode := r.IntN(10) < 5
 	maxK := 5
 	if tier == "thorough" {
@@ -602,9 +617,86 @@ func GenC11(seed uint64, tier string) *Config {
 			}
 		}
 		c.TargetNote += " finds:" + plantFinds(r, c, []string{"zeros:+0", "zeros:+0", "zeros:+1", "zero", "zeros:=243"}, nb)
+		if r.IntN(10) == 0 {
+			addBefore(r, c)
+		}
 	} else {
 		c.Hash = "real"
 	}
+	return c
+}
+
+// addBefore gives a stub-hash run a preceding call (see Config.Before). The judged call may become longer (BigData).
+func addBefore(r *rand.Rand, c *Config) {
+	if c.Hash != "stub" || c.Crowd > 1 || c.BigData > 0 {
+		return
+	}
+	mode := pick(r, "len+k*65536", "len+k*65536", "len+k*256", "shorter", "target/27")
+	b := &Config{Prop: c.Prop, Version: c.Version, Workers: pick(r, 1, 2, c.Workers), Hash: "stub", MustFind: true,
+		Stub: &StubPlan{Seed: r.Uint64(), AllQualify: true}, Fault: FaultPlan{Kind: "none"}, Background: true,
+		Strat: StratSpec{Kind: pick(r, "roundrobin", "uniform"), Seed: r.Uint64()}, StepCap: 300,
+		TargetBits: c.TargetBits, DataHex: c.DataHex, TargetNote: "before:" + mode}
+	n := len(c.DataHex) / 2
+	switch mode {
+	case "len+k*65536":
+		c.BigData = n + 65536*(1+r.IntN(3))
+	case "len+k*256":
+		c.BigData = n + 256*(1+r.IntN(40))
+	case "shorter":
+		b.DataHex = c.DataHex[:2*(n/(3+r.IntN(6)))]
+	case "target/27":
+		if c.Version == 1 {
+			b.TargetBits = math.Float64bits(c.targetF() / 27)
+		} else {
+			b.TargetBits = c.TargetBits / 27
+		}
+	}
+	if c.Version == 2 { // the precondition of C12 for the (possibly longer) judged message: len*target fits 64 bits
+		for {
+			if _, ok := ref.V2Product(c.msgLen(), c.TargetBits); ok {
+				break
+			}
+			c.TargetBits >>= 1
+			if mode != "target/27" {
+				b.TargetBits = c.TargetBits
+			} else {
+				b.TargetBits = c.TargetBits / 27
+			}
+		}
+	}
+	c.Before = b
+	c.TargetNote += " after:" + mode
+}
+
+// genDeepPassOver: the pass-over clause far from the start of the range. A single worker mines for thousands of batches
+// under an oracle in which exactly one nonce qualifies (clearly), placed in the last batch before the worker's hash count
+// reaches a round number — a power of two, a round decimal, or any multiple of 64 — which is where code that does
+// something "every N hashes" (yield the processor, poll, rotate a buffer, refresh a cache) does it; a second clear nonce
+// a few batches later catches the worker if it went past. The judge looks at the planted nonces only (exact: the
+// background of such an oracle never qualifies).
+func genDeepPassOver(r *rand.Rand) *Config {
+	c := &Config{Prop: "C12", Version: 2, Workers: 1, PassOver: true, MustFind: true, Hash: "stub", Background: r.IntN(2) == 0}
+	data := genData(r)
+	c.DataHex = hex.EncodeToString(data)
+	L := len(data) + 8
+	s := 6 + r.IntN(32)
+	p := new(big.Int).Mul(ref.Pow3(s), big.NewInt(9))
+	p.Quo(p, big.NewInt(10))
+	t := new(big.Int).Quo(p, big.NewInt(int64(L)))
+	if t.Sign() == 0 || !t.IsUint64() {
+		t = big.NewInt(1)
+	}
+	c.TargetBits = t.Uint64()
+	h := pick(r, uint64(1)<<14, 1<<15, 1<<16, 1<<16, 1<<17, 1<<18, 1<<19, 1<<20, 1<<20, 1<<20, 1000000, 500000, 100000, uint64(64*(1000+r.IntN(15000))))
+	c.Stub = &StubPlan{Seed: r.Uint64()}
+	c.Stub.Specials = append(c.Stub.Specials,
+		Special{h - 1 - uint64(r.IntN(32)), pick(r, "zero", "zeros:+0", "zeros:+1", "below", "T")},
+		Special{h + uint64(64*(1+r.IntN(3))+r.IntN(64)), "zero"})
+	c.Strat = StratSpec{Kind: "roundrobin", Seed: r.Uint64()}
+	c.Fault = FaultPlan{Kind: "none"}
+	c.StepCap = int(h/32) + 2000
+	c.HardCap = c.StepCap + 10000
+	c.TargetNote = fmt.Sprintf("deep-passover finds:single@hash%d", h)
 	return c
 }
 
@@ -613,6 +705,9 @@ func GenC12(seed uint64, tier string) *Config {
 	r := kernel.NewRand(seed)
 	if crowdDraw := r.IntN(60); crowdDraw == 0 && (Flavour == "auto" || Flavour == "autorace") {
 		return genCrowd(r, "C12", 2) // see GenC11
+	}
+	if deep := r.IntN(600) == 0; deep && Flavour != "race" && Flavour != "autorace" {
+		return genDeepPassOver(r)
 	}
 	c := &Config{Prop: "C12", Version: 2, MustFind: true}
 	if r.IntN(10) < 6 {
@@ -627,6 +722,9 @@ func GenC12(seed uint64, tier string) *Config {
 	c.StepCap = 150 + r.IntN(600)
 	c.Fault = FaultPlan{Kind: "none"}
 	c.Background = r.IntN(2) == 0
+	if c.Background {
+		c.NeverDone = pick(r, "", "", "", "todo", "value", "withoutcancel", "own")
+	}
 	stubMode := r.IntN(10) < 7
 	maxS := 6
 	if tier == "thorough" {
@@ -705,6 +803,9 @@ func GenC12(seed uint64, tier string) *Config {
 		// a guaranteed clear nonce further on, in case every planted find turned out marginal / not qualifying
 		for k := 0; k < c.Workers; k++ {
 			c.Stub.Specials = append(c.Stub.Specials, Special{workerStart(c.Workers, k) + uint64(64*(nb+1+r.IntN(2))+lane()), "zero"})
+		}
+		if r.IntN(10) == 0 {
+			addBefore(r, c)
 		}
 	} else {
 		c.Hash = "real"
